@@ -346,10 +346,7 @@ func genBigConc(r *sim.Rng, c *sim.Case) {
 	c.Knobs["big"] = 1
 	c.Sched.MaxSteps = 12000000
 	c.Sched.Dense = false
-	fill := sim.Task{Name: "t0"}
-	for i := 0; i < n; i++ {
-		fill.Ops = append(fill.Ops, sim.Op{K: "get", S: fmt.Sprintf("k%d", i), F: true})
-	}
+	fill := sim.Task{Name: "t0", Ops: []sim.Op{{K: "fill", S: "k", N: int64(n)}}}
 	c.Tasks = append(c.Tasks, fill)
 	// the others start when the cache is full (simulated time passes only when everybody waits)
 	wait := int64(time.Second)
@@ -369,7 +366,7 @@ func genBigConc(r *sim.Rng, c *sim.Case) {
 }
 
 func genConc(r *sim.Rng, c *sim.Case, keys []string) {
-	if c.Prop == "C09" && r.Chance(1, 1000) {
+	if c.Prop == "C09" && r.Chance(1, 300) {
 		genBigConc(r, c)
 		return
 	}
@@ -419,7 +416,7 @@ func genConc(r *sim.Rng, c *sim.Case, keys []string) {
 				c.Faults = append(c.Faults, sim.Fault{Seam: "loader", Kind: "sleep", Node: k, Ord: int64(att), D: int64(sim.Pick(r, time.Microsecond, time.Millisecond))})
 			}
 			if c.Knobs["flavor"] == 2 && r.Chance(1, 2) {
-				c.Faults = append(c.Faults, sim.Fault{Seam: "loader", Kind: "ttl", Node: k, Ord: int64(att), D: int64(sim.Pick(r, time.Microsecond, 500*time.Microsecond, time.Second))})
+				c.Faults = append(c.Faults, sim.Fault{Seam: "loader", Kind: "ttl", Node: k, Ord: int64(att), D: int64(sim.Pick(r, time.Microsecond, 500*time.Microsecond, time.Second, -time.Millisecond, -time.Millisecond, time.Duration(TTLZeroTime)))})
 			}
 		}
 	}
